@@ -11,6 +11,8 @@ TRUSTED_BASE = [
     'a sample of every run\'s cases is re-evaluated inside Coq with vm_compute and compared with the extracted model',
 ]
 
+LOOP_RULE = 'histories of 5-40 events (plus a quiescing tail) through the PRODUCTION event loop on socketpairs with a real poller and task queue: 1-3 clients, 2-3 backend nodes (layouts: full coverage / an unowned slot / an undialable node / two nodes; optional password handshake; optional 15 ms request timeout; optional 60-byte limit); clients send 1-3 requests per read (single-key, MGET/DEL/MSET over several slots, PING, unknown command, wrong arity, QUIT, keys that make the fake backend answer an error / MOVED to a known node / MOVED to an unknown node / ASK), sometimes cut inside a request; task rounds; backends answer 1-3 pending fragments, sometimes with the reply cut in two reads; client closes; backend closes; timeout scans after a real sleep. Nondeterminism of the Go code (map iteration order within one request, dial order) is recorded from the run and given to the model as oracle. distinct = distinct history; non-trivial = history contains at least one of the tagged situations (input_distribution shows how often each occurred)'
+
 PROPS = {
     'C05': {
         'props': 'Props/C05.v',
@@ -160,6 +162,20 @@ PROPS = {
         'explanation': 'Theorem C09_no_completed_head: for every history and every open client, at the end of each event the head of the queue is not a completed request - a deliverable reply is written in the event that completed it. One genuine defect repaired (flush gated on the whole queue being done). The wall-clock bound (epoll latency) is runtime behaviour outside the model; the stepper snapshot exposes the done flag of every queue head after each event.',
         'assumptions': ['as C01'],
     },
+    'C03': {
+        'props': 'Props/C03.v',
+        'suites': [{'name': 'loop', 'oracles': {'loop': 'o_loop'}, 'trivial_tags': ['plain'], 'vm_sample': 12, 'sigs': ['reply-does-not-belong-to-the-request-at-its-position', 'backend-received-bytes-that-are-not-requests', 'more-replies-than-requests', 'stray-bytes-after-the-last-reply', 'event-loop-stopped']}],
+        'rule': LOOP_RULE,
+        'explanation': 'Theorems over ALL event histories: (1) on every backend connection the node has received the handshake then exactly the recorded requests in order, the awaiting queue is the recorded requests not yet answered, so the i-th reply is given to the fragment whose request was i-th on the wire, and every recorded request is the request of its own fragment (SInv + WInv, inductive over events); (2) a reply changes only the request of the fragment it is matched with and writes only to the owning client (frame theorem); (3) queued requests are owned by the client in whose queue they sit; with C01 the i-th reply a client receives is the reply of its i-th request. Two genuine defects repaired (early error reply with fragments already queued: late reply delivered for the next request; f.Done not checked before redirects). The session oracle checks every reply against the key convention c<client>r<seq> of the fake backends, which exposes any cross-delivery including one caused by sync.Pool reuse.',
+        'assumptions': ['as C01', 'request-object recycling (sync.Pool) is not in the model: the model never reuses a request identifier; the correspondence run exercises the real pool and the session oracle would expose a reply written into a recycled object'],
+    },
+    'C15': {
+        'props': 'Props/C15.v',
+        'suites': [{'name': 'loop', 'oracles': {'loop': 'o_loop'}, 'trivial_tags': ['plain'], 'vm_sample': 12, 'sigs': ['request-never-answered-and-connection-left-open', 'completed-reply-withheld-at-head-of-queue', 'event-loop-stopped']}],
+        'rule': LOOP_RULE,
+        'explanation': 'Theorems over ALL event histories: (1) C15_no_orphan - every fragment that still owes a reply is held by an OPEN backend connection (awaiting a reply or waiting to be written), so a reply, the loss of the connection or the timeout resolves it (NInv, inductive over events, uses the decoder fact that every fragment of a decoded request has a routed per-slot request); (2) C15_close_completes - losing a connection completes in the same step every request with a fragment on it; (3) redirects to unknown / unconnectable nodes complete the request with an error; (4) completed requests are flushed (C09); (5) the pool never hands out a dead connection. Two genuine defects repaired (closeConn on a backend connection only logged: clients waited forever; OnMoved dropped the request on an unknown node). Histories close backends before the write, after the write and between the replies of split requests.',
+        'assumptions': ['as C01', 'removal of a node from the topology (ticker closing its pool) is covered by C14 for the pool set; in the event-loop model a removed node is a closed pool (pp_closed) and its connections are closed by EServerClose events', 'liveness is proved as "no orphan + each resolving event completes"; that one of the resolving events eventually happens (the kernel reports the close, the timer fires) is runtime behaviour'],
+    },
     'C13': {
         'props': 'Props/C13.v',
         'suites': [{'name': 'loop', 'oracles': {'loop': 'o_loop'}, 'trivial_tags': ['plain'], 'vm_sample': 12, 'sigs': ['ask-redirect-without-asking', 'redirect-error-leaked-to-client', 'event-loop-stopped']}],
@@ -188,6 +204,16 @@ MANIFEST_TEXT = {
         'text': 'Coq theorem over ALL event histories: no open client has a completed request at the head of its queue at the end of an event. Snapshot of the real loop checked after every event.',
         'note': 'Trusted: Coq kernel, extraction, Go harness + stepper hooks (core/verif_loop.go), the transcription in Model/Proxy.v (validated on every run against the production loop). Environment: well-formed backends.',
         'technique': 'Coq proof (inductive invariant) + differential correspondence with queue snapshots',
+    },
+    'C03': {
+        'text': 'Coq theorems over ALL event histories: positional reply correlation and request identity on every backend connection (two inductive invariants), frame theorem for replies, queue ownership; with C01. Session oracle with per-client/per-request key convention through the real loop and the real sync.Pool.',
+        'note': 'Trusted: Coq kernel, extraction, Go harness + stepper hooks (core/verif_loop.go), the transcription in Model/Proxy.v (validated on every run against the production loop). sync.Pool reuse is outside the model (covered by the correspondence run only).',
+        'technique': 'Coq proof (inductive invariants over event-loop steps + frame theorem) + differential correspondence through the real event loop',
+    },
+    'C15': {
+        'text': 'Coq theorems over ALL event histories: no fragment that owes a reply is held by a closed connection (inductive invariant), a connection loss completes every affected request in the same step, redirects to unknown nodes complete with an error, pool never returns a dead connection. Histories with backend closes at every point through the real loop.',
+        'note': 'Trusted: Coq kernel, extraction, Go harness + stepper hooks (core/verif_loop.go), the transcription in Model/Proxy.v (validated on every run against the production loop). Eventual occurrence of close/timer events is runtime behaviour.',
+        'technique': 'Coq proof (inductive invariant + step theorems) + differential correspondence through the real event loop',
     },
     'C13': {
         'text': 'Coq theorems on the redirect step (re-queue at tail, nothing reaches the client) + C01 invariant; ASK part refuted by a computed witness and recorded as a known finding. MOVED/ASK/unknown-node histories through the real loop.',
